@@ -274,6 +274,8 @@ def check_d2(res, f):
                         'draw from the global random state (unseeded)')
 
 
+ENTROPY_NAMES = {'uuid1', 'uuid4', 'urandom', 'token_hex', 'token_bytes', 'getpid', 'getrandbits', 'SystemRandom'}
+
 CLOCK_CALLS = {('time', 'time'), ('time', 'perf_counter'), ('time', 'monotonic'),
                ('datetime', 'now'), ('datetime', 'today'), ('datetime', 'utcnow'),
                ('time', 'time_ns'), ('time', 'process_time')}
@@ -287,7 +289,7 @@ def check_d3(res, canon, f):
         hit = None
         if isinstance(n.func, ast.Attribute):
             base = ast.unparse(n.func.value).split('.')[-1]
-            if (base, n.func.attr) in CLOCK_CALLS:
+            if (base, n.func.attr) in CLOCK_CALLS or n.func.attr in ENTROPY_NAMES:
                 hit = ast.unparse(n.func)
         elif isinstance(n.func, ast.Name):
             org = f.module.imports.get(n.func.id, '')
@@ -295,8 +297,8 @@ def check_d3(res, canon, f):
                 # builtin id(): only if the name is not rebound locally
                 if 'id' not in assigned_names(f) and 'id' not in f.params:
                     hit = 'id'
-            elif org in ('time.time', 'time.perf_counter', 'time.monotonic'):
-                hit = org
+            elif org in ('time.time', 'time.perf_counter', 'time.monotonic') or n.func.id in ENTROPY_NAMES:
+                hit = org or n.func.id
             elif n.func.id == 'hash' and f.name != '__hash__':
                 hit = 'hash'
         if not hit:
